@@ -56,7 +56,7 @@ def run(tier: str) -> int:
     try:
         PC.record_model(rep, wd, 7 if quick else 9, label="protocol_model")
         jobs = PC.matrix_jobs(seed, namesets=(0, 4) if quick else (0, 1, 2, 3, 4, 5, 6, 7)) \
-            + PC.many_patches_jobs(seed, start=9000)
+            + PC.many_patches_jobs(seed, start=9000) + PC.cross_class_jobs(seed, start=9500) + PC.close_variant_jobs(seed, start=9600)
         good, verd = PC.run_validate(rep, wd, jobs, "mode_matrix", "harness.protoworker", only=CLAUSES)
         rep.parts["mode_matrix"]["cells"] = sorted({j["label"] for j in jobs})[:8] + ["..."]
         rep.exhaustive = False
